@@ -30,15 +30,27 @@ ROLES = ['cwd', 'envpath', 'user', 'system']
 START_CWD = os.getcwd()
 
 
+_SB = {}
 def sandbox(root, files):
-    dirs = {}
-    for r in ROLES + ['env', 'home', 'xdg', 'userbase']:
-        d = os.path.join(root, r)
-        os.makedirs(d)
-        dirs[r] = os.path.realpath(d)
-    for r, content in files.items():
-        with open(os.path.join(dirs[r], 'nbdime_config.json'), 'w') as f:
-            json.dump(content, f)
+    """One sandbox per interpreter (directories are created once); per task only the nbdime_config.json files change."""
+    if 'dirs' not in _SB:
+        base = tempfile.mkdtemp(prefix='nbv_c19_')
+        dirs = {}
+        for r in ROLES + ['env', 'home', 'xdg', 'userbase']:
+            d = os.path.join(base, r)
+            os.makedirs(d)
+            dirs[r] = os.path.realpath(d)
+        _SB['dirs'] = dirs; _SB['base'] = base
+        import atexit
+        atexit.register(lambda: shutil.rmtree(base, ignore_errors=True))
+    dirs = _SB['dirs']
+    for r in ROLES:
+        p = os.path.join(dirs[r], 'nbdime_config.json')
+        if r in files:
+            with open(p, 'w') as f:
+                json.dump(files[r], f)
+        elif os.path.exists(p):
+            os.remove(p)
     os.environ.update(HOME=dirs['home'], XDG_CONFIG_HOME=dirs['xdg'], PYTHONUSERBASE=dirs['userbase'],
                       JUPYTER_CONFIG_DIR=dirs['user'], JUPYTER_CONFIG_PATH=dirs['envpath'],
                       JUPYTER_PREFER_ENV_PATH='0', JUPYTER_PLATFORM_DIRS='0')
@@ -68,9 +80,8 @@ def guarded(f):
 
 def resolve(task):
     import nbdime.config as C
-    root = tempfile.mkdtemp(prefix='nbv_c19_')
     try:
-        dirs = sandbox(root, task.get('files', {}))
+        dirs = sandbox(None, task.get('files', {}))
         ep = task['ep']
         out = {}
         from jupyter_core.paths import jupyter_config_path
@@ -89,7 +100,6 @@ def resolve(task):
         return out
     finally:
         os.chdir(START_CWD)
-        shutil.rmtree(root, ignore_errors=True)
 
 
 def tables(task):
@@ -106,16 +116,14 @@ def tables(task):
     def no_config(entrypoint): raise ValueError(entrypoint)
     A.get_defaults_for_argparse = no_config
     dests = {}
-    root = tempfile.mkdtemp(prefix='nbv_c19_')
     try:
-        sandbox(root, {})
+        sandbox(None, {})
         for ep in c19_stubs.EP_MAIN:
             r = c19_stubs.capture(ep, [])
             dests[ep] = sorted(r.get('ns', {}))
     finally:
         A.get_defaults_for_argparse = orig
         os.chdir(START_CWD)
-        shutil.rmtree(root, ignore_errors=True)
     return {'classes': classes, 'eps': eps, 'parser_dests': dests}
 
 
